@@ -268,6 +268,9 @@ class Sym(Interp):
             # (x if c else (y, 0))[k]: the index goes into both alternatives - a display is taken apart, an opaque value indexed
             return self.mkphi(b[1], T(self.h_subscript(b[2], idx, n, env, ctx)), T(self.h_subscript(b[3], idx, n, env, ctx)))
         ti = T(idx)
+        if b[0] == "sub" and isinstance(b[1], tuple) and len(b[1]) == 3 and b[1][0] == "attr" and b[1][2] == "T" and not (isinstance(ti, tuple) and ti and ti[0] in ("tuple", "slice")) \
+                and not (isinstance(b[2], tuple) and b[2] and b[2][0] in ("tuple", "slice")):
+            return ("sub", b[1][1], ("tuple", (ti, b[2])))          # X.T[k][i] is X[i, k]
         if isinstance(ti, tuple) and ti and ti[0] == "slice" and any(isinstance(x_, tuple) and len(x_) == 4 and x_[0] == "phi" for x_ in ti[1:4]):
             # x[a : (b if c else None)] is (x[a:b] if c else x[a:]): a bound chosen by a condition selects between two slices
             k_ = [k for k in (1, 2, 3) if isinstance(ti[k], tuple) and len(ti[k]) == 4 and ti[k][0] == "phi"][0]
@@ -279,6 +282,8 @@ class Sym(Interp):
                 isinstance(T(idx)[1], int) and not isinstance(T(idx)[1], bool) and 0 <= T(idx)[1] < len(b[1][2]):
             # component k of the current tuple of zip(a, b, ...) / itertools.product(a, b, ...) is the current element of its k-th argument; whether the
             # arguments advance together or in all combinations is recorded in the loop's `iter`, where the rules that care look for it
+            if getattr(self, "zip_index", False) and b[1][1] == "zip":
+                return ("sub", b[1][2][T(idx)[1]], b)        # on request: X_k[position], the position being the current element of the zip itself
             return ("elem", b[1][2][T(idx)[1]])
         if b[0] == "cmp" and len(b) == 4 and b[1] in ("==", "!=", "<", "<=", ">", ">=") and (is_const(b[3]) or is_const(b[2])) and \
                 isinstance((b[3] if is_const(b[3]) else b[2])[1], (int, float)):
@@ -335,6 +340,10 @@ class Sym(Interp):
         if t[0] == "ext" and t[1] == "enumerate" and t[2]:
             return TupleV([("idx", t[2][0]), ("elem", t[2][0])])
         if t[0] == "ext" and t[1] == "zip":
+            if getattr(self, "zip_index", False):
+                return TupleV([T(self.h_subscript(a, ("elem", t), n, None, ctx)) for a in t[2]])      # X_k[position in the zip]
+            return TupleV([("elem", a) for a in t[2]])
+        if t[0] == "ext" and t[1] == "itertools.product" and not t[3]:
             return TupleV([("elem", a) for a in t[2]])
         if t[0] == "method" and t[2] == "items" and not t[3]:
             return TupleV([("key", t[1]), ("val", t[1])])
